@@ -18,7 +18,8 @@ alignment in the same direction), `$` is written exactly on positions equal to t
 same walks, tags are carried over (LN<->slen, ID<->eid, VN aside); the converted text is accepted by
 gfapy.Gfa(text, vlevel=3) + validate() and by the independent recogniser of _misc.py; there-and-back gives an
 equivalent document; records without counterpart (F, G, U, custom records, internal edges, trace-aligned edges)
-are absent from the whole-graph conversion and their line.to_gfa1() raises a gfapy.Error.
+are absent from the whole-graph conversion and their line.to_gfa1() raises a gfapy.Error; in the other direction GFA1
+links and containments whose CIGAR GFA2 cannot hold are refused or dropped (section below).
 
 NAMES WITHOUT A GFA1 SPELLING.  A GFA2 identifier is any printable string, a GFA1 segment name does not start with `*`
 or `=` and holds no `+,` / `-,` (the segment list of a P line is split at its commas: a path over `x+,y` written
@@ -60,11 +61,28 @@ record without a counterpart:
   at vlevel >= 1 it refuses a source in which an edge ends at the declared end of such a segment; the generator puts
   such edges into documents parsed at vlevel 0 and otherwise prefers segments on which no position carries a `$`.
 
+GFA1 EDGES WHOSE CIGAR USES AN OPERATION THAT GFA2 DOES NOT HAVE.  A GFA1 CIGAR may use M I D N S H P X =, a GFA2
+alignment M I D P only.  A link or containment with `=`, `X`, `N`, `S` or `H` in its overlap (legal GFA1, accepted by gfapy
+at every level; gfa1_only_edges()) is a record without a counterpart.  Exhaustive: 11 link CIGARs x 2 orientation pairs
+and 8 containment CIGARs, alone, next to a convertible link, under a path that spells the overlap out / uses `*`, half of
+them read at vlevel 0 first; random: in a sixth of the GFA1 graphs one link or containment (a containment half of the
+time, if there is one) gets such a CIGAR with the same query length and the same or a shorter reference length
+(gfa1_only_one(): M -> = / X, an H inserted, I -> S, D -> N, a soft clip at an end), path steps over it re-spelled.
+  * line level: L.to_gfa2()/to_gfa2_s(), C.… must raise a gfapy.Error       signature gfa1-only-cigar-translated[L|C]
+  * whole graph: Gfa.to_gfa2_s()/to_gfa2() may raise; if a text comes back, no E line in it carries a CIGAR with such
+    an operation                                                        signature gfa1-only-cigar-translated[Gfa:E]
+    (a text with such lines is not offered to the validity check again: it is already reported); the rest of the text
+    is valid GFA2 and is compared with the source as usual (the edge and the paths over it left out).
+  The unmodified tree refuses all of them (ToGFA2._to_gfa2_a validates the overlap for GFA2): the whole-graph
+  conversions and the line conversions raise gfapy.RuntimeError at every level.
+
 NOT CHECKED
   * links whose overlap covers a whole segment (reflen >= |from| or querylen >= |to|): in GFA2 they look like
     containments (DESIGN §7, note after the table) -- such links, and paths through them, are skipped;
-  * GFA1 input with `*` overlaps or segments without length (outside the quantifier), links with S/N/H/=/X
-    operations (no GFA2 spelling), zero-length overlaps;
+  * GFA1 input with `*` overlaps or segments without length (outside the quantifier), zero-length overlaps;
+  * for a GFA1 edge with an S/N/H/=/X operation: an E line that stands for it with another, GFA2-legal alignment
+    (it is not compared with anything; only an E line that carries the GFA1-only CIGAR is flagged), and whether the
+    paths over it are dropped with it; there-and-back is not run on such graphs;
   * containments whose container is reverse (`C A - ...`): what `pos` counts from is not said by GFA1 -- they are
     generated, and compared under the reading "pos is a forward coordinate of the container", signature suffix [C-];
   * what the sign of an edge reference inside an O group means (gfapy reads `e-` as "both orientations flipped"; the
@@ -90,10 +108,14 @@ RULE = ("exhaustive: every single-link GFA1 graph over 4 orientation pairs x 14 
         "versions, and GFA2 identifiers without a GFA1 spelling (leading `*`/`=`, `+,`/`-,` inside) on segments, under edges "
         "and under ordered groups (exhaustive: 10 names x {`*`, CIGAR} x 7 group shapes; random: 15% of the cases): "
         "refused or dropped, never written; GFA2 segments whose sequence string is shorter or longer than the declared length "
-        "(exhaustive: 2 x 6 shapes; random: a fifth of the GFA2 cases): refused or dropped, never written with another length. "
+        "(exhaustive: 2 x 6 shapes; random: a fifth of the GFA2 cases): refused or dropped, never written with another length; "
+        "GFA1 links and containments whose CIGAR uses an operation GFA2 does not have (= X N S H; exhaustive: 11 link CIGARs "
+        "x 2 orientation pairs x {alone, beside a convertible link, under a path} and 8 containment CIGARs; random: a sixth "
+        "of the GFA1 cases, path overlaps re-spelled): refused by line.to_gfa2()/to_gfa2_s(), refused or dropped by the "
+        "whole-graph conversion, never written as an E line with that CIGAR. "
         "Non-trivial: the graph has an edge whose "
-        "alignment is asymmetric (not equal to its own complement), a path, a segment without a GFA1 name, or a segment "
-        "whose declared length differs from the length of its sequence.")
+        "alignment is asymmetric (not equal to its own complement), a path, a segment without a GFA1 name, a segment "
+        "whose declared length differs from the length of its sequence, or a GFA1 edge with a GFA1-only CIGAR operation.")
 
 INV = {"+": "-", "-": "+"}
 
@@ -639,10 +661,16 @@ def gen_gfa2(rng, names=NAMES):
 
 def gen_case(rng, tier, i):
     k = rng.random()
-    if k < 0.5:
-        return {"dir": "1to2", "lines": gen_gfa1(rng), "vlevel": rng.pick([0, 1, 1, 2, 3])}
     if k < 0.55:
-        return {"dir": "1to2", "lines": gen_gfa1(rng, NAMES + ODD_NAMES), "vlevel": rng.pick([0, 1, 1, 2, 3])}
+        if k < 0.5:
+            c = {"dir": "1to2", "lines": gen_gfa1(rng), "vlevel": rng.pick([0, 1, 1, 2, 3])}
+        else:
+            c = {"dir": "1to2", "lines": gen_gfa1(rng, NAMES + ODD_NAMES), "vlevel": rng.pick([0, 1, 1, 2, 3])}
+        # a sixth of the GFA1 graphs: one link or containment gets a CIGAR with an operation GFA2 does not have
+        # (drawn after everything else: the other cases are the ones generated before)
+        if rng.chance(0.17):
+            gfa1_only_one(rng, c)
+        return c
     if k < 0.85:
         c = {"dir": "2to1", "lines": gen_gfa2(rng), "vlevel": rng.pick([0, 1, 1, 2, 3])}
     else:
@@ -653,6 +681,105 @@ def gen_case(rng, tier, i):
     if rng.chance(0.2):
         mismatch_one(rng, c)
     return c
+
+
+def cig_str(ops):
+    return "".join("%d%s" % o for o in ops)
+
+
+def revcomp_cig(ops):
+    """the same alignment written for the complement link (read backwards, roles swapped)"""
+    return list(reversed(swap_id(ops)))
+
+
+def has_gfa1_only(cig):
+    return any(k in GFA1_ONLY_OPS for _, k in ops_of(cig))
+
+
+def gfa1_only_one(rng, case):
+    """rewrite the CIGAR of one link or containment of a GFA1 case so that it uses an operation which only GFA1 has.
+    M becomes = / X (all of them, or split into a match and a mismatch part), an H is inserted, and - for containments and
+    for links that no path walks - I becomes S, D becomes N or the last base of a final M becomes a soft clip.  The
+    query length is kept and the reference length is kept or shortened (never to zero), so segments, positions and
+    the other lines stay what they were.  Path steps over the link that spell its overlap out are re-spelled (forward:
+    the new CIGAR, backward: the new CIGAR read backwards with I and D exchanged), so the path still names this link."""
+    L = case["lines"]
+    cand = [j for j, l in enumerate(L) if l.split("\t")[0] in ("L", "C") and l.split("\t")[{"L": 5, "C": 6}[l.split("\t")[0]]] != "*"]
+    if not cand:
+        return
+    conts = [j for j in cand if L[j].startswith("C\t")]
+    j = rng.pick(conts) if conts and rng.chance(0.5) else rng.pick(cand)
+    f = L[j].split("\t")
+    ci = 5 if f[0] == "L" else 6
+    old = ops_of(f[ci])
+    a, oa, b, ob = f[1], f[2], f[3], f[4]
+    # the path steps over this link: (line index, step index, forward?)
+    steps = []
+    for pj, l in enumerate(L):
+        g = l.split("\t")
+        if g[0] != "P" or f[0] != "L":
+            continue
+        segs = [(e[:-1], e[-1]) for e in g[2].split(",")]
+        ov = g[3].split(",")
+        closed = ov != ["*"] and len(ov) == len(segs)
+        for k, (x, y) in enumerate(list(zip(segs, segs[1:])) + ([(segs[-1], segs[0])] if closed else [])):
+            # (a hairpin `L A + A -` is spelled like its own complement: a step over it may use either reading)
+            if (x[0], x[1], y[0], y[1]) == (a, oa, b, ob):
+                steps.append((pj, k, True))
+            if (x[0], x[1], y[0], y[1]) == (b, INV[ob], a, INV[oa]):
+                steps.append((pj, k, False))
+    modes = ["eq", "x", "mix", "H"]
+    if not steps:
+        modes += ["S", "N", "clip"]
+    mode = rng.pick(modes)
+    new = [tuple(o) for o in old]
+    if mode in ("eq", "x"):
+        new = [(n, {"eq": "=", "x": "X"}[mode]) if k == "M" else (n, k) for n, k in new]
+    elif mode == "mix":
+        out = []
+        for n, k in new:
+            if k == "M" and n >= 2:
+                out += [(n - 1, "="), (1, "X")]
+            elif k == "M":
+                out.append((n, "="))
+            else:
+                out.append((n, k))
+        new = out
+    elif mode == "H":
+        new.insert(rng.pick([0, len(new), rng.randrange(len(new) + 1)]), (rng.pick([1, 2]), "H"))
+    elif mode == "S" and any(k == "I" for _, k in new):
+        new = [(n, "S") if k == "I" else (n, k) for n, k in new]
+    elif mode == "N" and any(k == "D" for _, k in new):
+        new = [(n, "N") if k == "D" else (n, k) for n, k in new]
+    else:
+        # soft clip at the end (or, instead, at the begin) of the query: one base of the last / first M
+        at = [i for i, (n, k) in enumerate(new) if k == "M"]
+        if not at:
+            return
+        i = at[-1] if rng.chance(0.6) else at[0]
+        n = new[i][0]
+        head = rng.chance(0.5)
+        piece = ([(1, "S")] if head else []) + ([(n - 1, "M")] if n > 1 else []) + ([] if head else [(1, "S")])
+        new = new[:i] + piece + new[i + 1:]
+        if reflen(new) == 0:
+            new = [(n, "=") if k == "M" else (n, k) for n, k in [tuple(o) for o in old]]
+    if not has_gfa1_only(cig_str(new)):
+        new = [(n, "=") if k == "M" else (n, k) for n, k in new]
+    if not has_gfa1_only(cig_str(new)) or qlen(new) != qlen(old) or not (0 < reflen(new) <= reflen(old)):
+        return
+    f[ci] = cig_str(new)
+    L[j] = "\t".join(f)
+    done = set()
+    for pj, k, fwd in steps:
+        g = L[pj].split("\t")
+        ov = g[3].split(",")
+        if ov == ["*"] or k >= len(ov) or (pj, k) in done:
+            continue
+        if ov[k] == cig_str(old if fwd else revcomp_cig(old)):
+            ov[k] = cig_str(new if fwd else revcomp_cig(new))
+            g[3] = ",".join(ov)
+            L[pj] = "\t".join(g)
+            done.add((pj, k))
 
 
 def mismatch_one(rng, case):
@@ -700,6 +827,8 @@ def nontrivial(case):
             return True
         if f[0] == "C" and asym(f[6]):
             return True
+        if case["dir"] == "1to2" and ((f[0] == "L" and has_gfa1_only(f[5])) or (f[0] == "C" and has_gfa1_only(f[6]))):
+            return True
         if f[0] == "E" and asym(f[8]):
             return True
         if f[0] == "S" and case["dir"] == "2to1" and not M.name1_ok(f[1]):
@@ -717,6 +846,9 @@ def tags(case):
         f = l.split("\t")
         if f[0] == "L":
             t.append("L:" + f[2] + f[4] + (":self" if f[1] == f[3] else "") + (":named" if "ID:Z:" in l else ""))
+        if f[0] in ("L", "C") and case["dir"] == "1to2" and has_gfa1_only(f[5 if f[0] == "L" else 6]):
+            t.append(f[0] + ":gfa1-only-cigar")
+            t += ["cigar-op:" + k for _, k in ops_of(f[5 if f[0] == "L" else 6]) if k in GFA1_ONLY_OPS]
         if f[0] == "P":
             n, k = len(f[2].split(",")), (0 if f[3] == "*" else len(f[3].split(",")))
             t.append("P:" + ("one" if n == 1 and k == 0 else "circular" if n == k else "linear"))
@@ -831,7 +963,7 @@ def edges_of_gfa1(D, lens):
             seen.setdefault(ce, d)
             out.append((ce, l["id"], l["tags"], "L", False))
     for c in D["C"]:
-        if c["cig"] == "*" or lens.get(c["a"]) is None or lens.get(c["b"]) is None:
+        if c["cig"] == "*" or lens.get(c["a"]) is None or lens.get(c["b"]) is None or any(k not in "MIDP" for _, k in ops_of(c["cig"])):
             out.append((None, c["id"], c["tags"], "C", True))
         else:
             out.append((canon_edge(*cont_edge(c["a"], c["oa"], c["b"], c["ob"], c["pos"], c["cig"], lens)), c["id"], c["tags"],
@@ -924,8 +1056,11 @@ def oracle(case):
     bad = unnameable(Dsrc) if d == "2to1" else {"S": set(), "E": set(), "O": set()}
     # segments whose declared length is not the length of their sequence string: no GFA1 segment stands for them
     mism = (mismatched(Dsrc) - bad["S"]) if d == "2to1" else set()
-    has_orphans = d == "2to1" and (parallel or Dsrc["F"] or Dsrc["G"] or Dsrc["U"] or Dsrc["other"] or bad["S"] or bad["O"] or mism or
-                                   any(e_kind(e, lens) == "I" or isinstance(aln_of(e["aln"]), tuple) for e in Dsrc["E"]))
+    # GFA1 links / containments whose CIGAR uses an operation GFA2 does not have: no E line stands for them
+    only1 = gfa1_only_edges(Dsrc) if d == "1to2" else []
+    has_orphans = bool(only1) or \
+        (d == "2to1" and (parallel or Dsrc["F"] or Dsrc["G"] or Dsrc["U"] or Dsrc["other"] or bad["S"] or bad["O"] or mism or
+                          any(e_kind(e, lens) == "I" or isinstance(aln_of(e["aln"]), tuple) for e in Dsrc["E"])))
     if parallel:
         return []          # two GFA2 edges between the same pair of segments: GFA1 has one link per pair of ends -- not judged
     texts = []
@@ -961,13 +1096,22 @@ def oracle(case):
                 check_valid(F, "\n".join(tl), tv, how)
             check_2to1(F, Dcmp, lens, tl_rest, how)
             continue
+        if only1:
+            # the edge is refused (the conversion raises: accepted above) or dropped; an E line that carries a CIGAR
+            # with a GFA1-only operation is the link written out unchecked.  Such a text is not offered to the validity
+            # check again (it is already reported); the rest is compared with the source as usual (check_1to2 leaves out
+            # the links it cannot express, and the paths over them)
+            if check_gfa1_only_absent(F, only1, tl, how) == 0:
+                check_valid(F, "\n".join(tl), tv, how)
+            check_1to2(F, Dsrc, lens, tl, how)
+            continue
         check_valid(F, "\n".join(tl), tv, how)
         if d == "1to2":
             check_1to2(F, Dsrc, lens, tl, how)
         else:
             check_2to1(F, Dsrc, lens, tl, how)
     # ---- there and back
-    back_ok = d == "1to2" or not (has_orphans or any(aln_of(e["aln"]) is None for e in Dsrc["E"]))
+    back_ok = (d == "1to2" and not only1) or (d == "2to1" and not (has_orphans or any(aln_of(e["aln"]) is None for e in Dsrc["E"])))
     if texts and back_ok:
         how, T = texts[0]
         tl = [l for l in T.split("\n") if l != ""]
@@ -988,6 +1132,24 @@ def oracle(case):
         except Exception as e:
             F.append("foreign-exception: there-and-back raised %s@%s" % (e.__class__.__name__, M.innermost_gfapy_frame(e)))
     # ---- line level: refused, never mistranslated
+    if d == "1to2" and only1:
+        g = fresh()
+        for l in list(g.lines):
+            rt = l.record_type
+            if rt not in ("L", "C") or getattr(l, "virtual", False):
+                continue
+            txt = str(l)
+            f = txt.split("\t")
+            if len(f) <= (5 if rt == "L" else 6) or not has_gfa1_only(f[5 if rt == "L" else 6]):
+                continue
+            for m in ("to_gfa2", "to_gfa2_s"):
+                st, r = conv(F, "%s-line.%s()" % (rt, m), getattr(l, m))
+                if st == "ok" and str(r) != "":
+                    F.append("gfa1-only-cigar-translated[%s]: %s() of %r gives %r instead of an error (the overlap %s uses %s: GFA2 "
+                             "alignments have M, I, D, P only, no E line stands for this %s)"
+                             % (rt, m, txt, str(r), f[5 if rt == "L" else 6],
+                                ", ".join(sorted({k for _, k in ops_of(f[5 if rt == "L" else 6]) if k in GFA1_ONLY_OPS})),
+                                "link" if rt == "L" else "containment"))
     if d == "2to1":
         g = fresh()
         for l in list(g.lines):
@@ -1033,6 +1195,33 @@ def oracle(case):
     # unmodified tree): listed last, so that summaries by first failure show whatever else is wrong
     out.sort(key=lambda f: 1 if re.match(r"(unnameable-translated\[(Gfa:)?[SELC]\]|slen-mismatch-translated\[)", f) else 0)
     return out
+
+
+def gfa1_only_edges(D1):
+    """the links and containments of a GFA1 document whose CIGAR uses an operation that GFA2 does not have -> their texts"""
+    out = []
+    for l in D1["L"]:
+        if l["cig"] != "*" and has_gfa1_only(l["cig"]):
+            out.append("L\t%s\t%s\t%s\t%s\t%s" % (l["a"], l["oa"], l["b"], l["ob"], l["cig"]))
+    for c in D1["C"]:
+        if c["cig"] != "*" and has_gfa1_only(c["cig"]):
+            out.append("C\t%s\t%s\t%s\t%s\t%d\t%s" % (c["a"], c["oa"], c["b"], c["ob"], c["pos"], c["cig"]))
+    return out
+
+
+def check_gfa1_only_absent(F, only1, tl, how):
+    """whole-graph conversion of a GFA1 graph with links / containments whose CIGAR GFA2 cannot hold: no E line of the
+    converted text carries a CIGAR with a GFA1-only operation -> number of offending lines"""
+    n = 0
+    for ln in tl:
+        f = ln.split("\t")
+        if f[0] == "E" and len(f) > 8 and re.match(r"([0-9]+[MIDNSHPX=])+\Z", f[8]) and has_gfa1_only(f[8]):
+            n += 1
+            F.append("gfa1-only-cigar-translated[Gfa:E]: %s writes %r: the alignment %s uses %s, which GFA2 does not have "
+                     "(source edge%s without a GFA2 counterpart: %r - dropped or refused)"
+                     % (how, ln, f[8], ", ".join(sorted({k for _, k in ops_of(f[8]) if k in GFA1_ONLY_OPS})),
+                        "s" if len(only1) > 1 else "", only1))
+    return n
 
 
 def mismatched(D2):
